@@ -564,8 +564,10 @@ class RTCDtlsTransport(AsyncIOEventEmitter):
                 pass
             self.__log_debug("- DTLS shutdown complete")
 
-        # a handshake which is still in progress must not report anything later
-        if self._state == State.CONNECTING:
+        # a handshake which is still in progress must not report anything later,
+        # and a stopped transport must not look connected until its receive
+        # task has been cancelled
+        if self._state in [State.CONNECTING, State.CONNECTED]:
             self._set_state(State.CLOSED)
 
     async def __run(self) -> None:
